@@ -256,6 +256,7 @@ func (c *rapidContext) watchEvents(events <-chan supvmodel.Event) {
 		// When their are other event types then we would need to be selective,
 		// about what we send to handleShutdownEvent().
 		c.shutdownContext.handleProcessExit(*termination)
+		verifAt("watch.exitHandled")
 		c.registrationService.CancelFlows(err)
 	}
 }
@@ -691,6 +692,7 @@ func handleInvoke(execCtx *rapidContext, invokeRequest *interop.Invoke, sbInfoFr
 }
 
 func reinitialize(execCtx *rapidContext) {
+	verifAt("rapid.reinitialize")
 	execCtx.appCtx.Delete(appctx.AppCtxInvokeErrorTraceDataKey)
 	execCtx.appCtx.Delete(appctx.AppCtxRuntimeReleaseKey)
 	execCtx.appCtx.Delete(appctx.AppCtxFirstFatalErrorKey)
